@@ -586,6 +586,13 @@ def handleDecode (j : Json) : Except String Json := do
       | some l => Json.arr (l.map (fun x => match x with | some v => toJson v | none => Json.null)).toArray)).toArray)
     (Decode.decode b sol)
 
+def handleImplied (j : Json) : Except String Json := do
+  let d ← parseDesign (← j.getObjVal? "design")
+  let sq ← parseSeq (← j.getObjVal? "cols")
+  let lf ← parseLFactor (← j.getObjVal? "lfactor")
+  let col := Implied.column d (← getNat j "id") (← getNat j "n") lf (fun dep u => sq.at dep u)
+  return Json.mkObj [("ok", Json.arr (col.map (fun x => match x with | some v => toJson v | none => Json.null)).toArray)]
+
 def handle (j : Json) : Except String Json := do
   let op ← getStr j "op"
   match op with
@@ -602,6 +609,7 @@ def handle (j : Json) : Except String Json := do
   | "pipeline" => handlePipeline j
   | "randomgen" => handleRandomGen j
   | "decode" => handleDecode j
+  | "implied" => handleImplied j
   | _ => throw s!"unknown op {op}"
 
 partial def loop (h : IO.FS.Stream) (out : IO.FS.Stream) : IO Unit := do
